@@ -183,4 +183,23 @@ PROPS = {
         "trusted": ["symbolic cryptography; developers' keys are disjoint from root/primary-rule-file keys and from each other in generated worlds (shared keys make the Go map iteration order observable)", 'the harness world builder writes policy and attestation commits directly (bypassing Apply, which would refuse the forbidden states) and the in-memory Storer', 'not modelled: tags, file rules (C10), code-review approvals, controller repositories, the persistent cache (C08), hooks', 'error kinds are compared for correspondence; the property is decided on accept/reject and the tip'],
         "assumptions": [],
     },
+    "C16": {
+        "propfile": "PropC16.v",
+        "n": {"quick": 1, "thorough": 1},
+        "corr": "mutating operations under a faulting gitstore.Storer wrapper vs fault_actions / crash_actions (StoreOps.v)",
+        "rule": "EXHAUSTIVE over the storage-interface calls of 11 (operation, start state) pairs: record reference entry / annotation, "
+                "State.Commit of staged policy (empty, established, staged-ahead), Attestations.Commit (empty, established, second), "
+                "policy.Apply (first-ever, established), ReconcileStaging (policy ahead of staging); for every call index k the k-th call "
+                "returns an error (fault) and, separately, the operation is abandoned right after it (crash). Afterwards refs and log are "
+                "inspected through an independent walker, the operation is repeated without fault, and the sequence of mutating calls is "
+                "compared with the model's prediction. A fault the operation absorbs with the complete result (optional reads such as "
+                "loading the cache) is not judged. non-trivial: every case",
+        "theorems": ["C16_fault", "C16_rerun", "C16_crash"],
+        "trusted": [
+            "fault points are storage-INTERFACE calls on the harness's in-memory Storer; points inside gitinterface.Repository methods "
+            "(between git subprocesses) are not enumerated",
+            "the diverged case of ReconcileStaging, hooks, controller metadata and the experimental/gittuf API wrappers are not enumerated",
+        ],
+        "assumptions": ["a single failure per operation; the compensation itself does not fail"],
+    },
 }
